@@ -7,7 +7,7 @@
    partitioned graph (property C18); the equality of the partitioned run with the denotation of the
    flat graph is NOT proved here -- the correspondence check compares the implementation with both. *)
 From Coq Require Import List NArith Bool.
-From HV Require Import Dfir.Model Dfir.ModelTick Dfir.PTick.
+From HV Require Import Dfir.Model Dfir.ModelTick Dfir.PTick Dfir.PFrame.
 Import ListNotations.
 
 Theorem C23_handoff_complete :
@@ -18,6 +18,18 @@ Theorem C23_handoff_complete :
   (forall k k' l m, k <> k' -> get k (push_to k' l m) = get k m).
 Proof. split; [exact consumer_gets_buf|]. split; [exact push_to_get | exact push_to_other]. Qed.
 Print Assumptions C23_handoff_complete.
+
+(* end to end for one handoff of a tick program without loop blocks: the consuming block reads
+   exactly (all of, once) what the producing block left, whatever blocks run in between *)
+Theorem C23_same_tick_delivery : forall ext A P M C h k w,
+  Forall (fun sg => buf_free sg h) M ->
+  ~ In h (map fst (sg_send C)) ->
+  NoDup (map fst (sg_recv C)) -> In (h, false) (sg_recv C) ->
+  In (h, k) (sg_send P) -> k <> SExit -> NoDup (map fst (sg_send P)) ->
+  reads_at ext (A ++ P :: M) C h w = get h (w_buf (run_sg ext P (run_sgs ext A w))) /\
+  get h (w_buf (prep_send P (run_sgs ext A w))) = [].
+Proof. exact same_tick_delivery. Qed.
+Print Assumptions C23_same_tick_delivery.
 
 (* non-vacuity: producer subgraph then anti_join consumer across handoff 0 *)
 Example C23_example :
